@@ -97,6 +97,8 @@ type interpreter struct {
 	stubs            map[string]*ssa.Function // function name -> replacement
 
 	lastFrame *frame
+
+	bypassIntrinsic bool // the next callSSA interprets the body even if an intrinsic exists
 }
 
 func (fr *frame) get(key ssa.Value) value {
@@ -769,11 +771,12 @@ func (i *interpreter) callSSA(caller *frame, callpos token.Pos, fn *ssa.Function
 		panic(pathAbort{"depth", "call depth exceeded in " + fn.String()})
 	}
 	fr := &frame{i: i, caller: caller, fn: fn, depth: depth}
-	if fn.Parent() == nil {
+	if fn.Parent() == nil && !i.bypassIntrinsic {
 		if ext := i.intrinsicFor(fn); ext != nil {
 			return ext(fr, args)
 		}
 	}
+	i.bypassIntrinsic = false
 	if fn.Blocks == nil {
 		i.unsupported("no code for function %s", fn)
 	}
